@@ -45,7 +45,7 @@ Definition pout_eqb (a b : pout) : bool :=
       oZ_eqb (pr_reason x) (pr_reason y) && obytes_eqb (pr_msg x) (pr_msg y) && attrs_eqb (pr_fields x) (pr_fields y)
   | PDict s r m d, PDict s' r' m' d' => (s =? s') && oZ_eqb r r' && obytes_eqb m m' && dict_eqb d d'
   | PPayload p, PPayload q => attrs_eqb p q
-  | PFail s r m, PFail s' r' m' => (s =? s') && (r =? r') && bytes_eqb m m'
+  | PFail s r m, PFail s' r' m' => (s =? s') && (r =? r') && obytes_eqb m m'
   | PExc, PExc => true
   | _, _ => false
   end.
